@@ -1,5 +1,6 @@
 import RSVerif.Lemmas.RdbRun
 import RSVerif.Properties.C11
+import RSVerif.Generated.C01Consts
 /-
 C01 — RDB parsing delivers every key exactly, whatever its encoding.
 
@@ -11,6 +12,27 @@ Helper lemmas: Lemmas/Rdb{Basic,Lzf,Value,Hash,Loader,Fuel,Run}.lean.
 set_option linter.unusedSimpArgs false
 namespace RSVerif.Properties.C01
 open RSVerif RSVerif.Rdb RSVerif.Spec.Rdb RSVerif.Lemmas.Rdb
+
+/-! ### The numerals of the model are the constants of the source (regenerated on every run) -/
+
+/-- type codes, opcodes, module sub-opcodes, length-form and string-encoding tags as `go/factgen/c01.go` reads them from
+    pkg/rdb/reader.go NOW are the numerals written in Model/RdbRead.lean and Spec/Rdb.lean, and the constant the
+    accumulated hash bytes are compared with in `readObjectValue` is 16 MiB — the `L` the driver instantiates the
+    theorems with (`parse_exact` itself holds for every `L`). -/
+theorem consts_tie :
+    Generated.C01.typeString = 0 ∧ Generated.C01.typeList = 1 ∧ Generated.C01.typeSet = 2 ∧ Generated.C01.typeZSet = 3 ∧
+    Generated.C01.typeHash = 4 ∧ Generated.C01.typeZSet2 = 5 ∧ Generated.C01.typeHashZipmap = 9 ∧
+    Generated.C01.typeListZiplist = 10 ∧ Generated.C01.typeSetIntset = 11 ∧ Generated.C01.typeZSetZiplist = 12 ∧
+    Generated.C01.typeHashZiplist = 13 ∧ Generated.C01.typeQuicklist = 14 ∧ Generated.C01.typeStream = 15 ∧
+    Generated.C01.flagModuleAux = 0xF7 ∧ Generated.C01.flagIdle = 0xF8 ∧ Generated.C01.flagFreq = 0xF9 ∧
+    Generated.C01.flagAux = 0xFA ∧ Generated.C01.flagResizeDB = 0xFB ∧ Generated.C01.flagExpiryMS = 0xFC ∧
+    Generated.C01.flagExpiry = 0xFD ∧ Generated.C01.flagSelectDB = 0xFE ∧ Generated.C01.flagEOF = 0xFF ∧
+    Generated.C01.modEof = 0 ∧ Generated.C01.modSint = 1 ∧ Generated.C01.modUint = 2 ∧ Generated.C01.modFloat = 3 ∧
+    Generated.C01.modDouble = 4 ∧ Generated.C01.modString = 5 ∧
+    Generated.C01.len6bit = 0 ∧ Generated.C01.len14bit = 1 ∧ Generated.C01.len32bit = 0x80 ∧ Generated.C01.len64bit = 0x81 ∧
+    Generated.C01.encVal = 3 ∧ Generated.C01.encInt8 = 0 ∧ Generated.C01.encInt16 = 1 ∧ Generated.C01.encInt32 = 2 ∧
+    Generated.C01.encLZF = 3 ∧
+    Generated.C01.chunkLimit = 16 * 1024 * 1024 ∧ Generated.rdbFromVersion = 9 := by decide
 
 theorem serStr_length_pos (s : RStr) : 1 ≤ (serStr s).length := by
   cases s with
